@@ -797,7 +797,9 @@ type MidState struct {
 }
 
 func (ms *MidState) siacoinElement(ts V1TransactionSupplement, id types.SiacoinOutputID) (types.SiacoinElement, bool) {
-	if i, ok := ms.elements[id]; ok {
+	// ms.elements is shared by all element kinds: make sure the index refers
+	// to a siacoin element with this ID
+	if i, ok := ms.elements[id]; ok && i < len(ms.sces) && ms.sces[i].SiacoinElement.ID == id {
 		return ms.sces[i].SiacoinElement, true
 	}
 	for _, sce := range ts.SiacoinInputs {
@@ -809,7 +811,7 @@ func (ms *MidState) siacoinElement(ts V1TransactionSupplement, id types.SiacoinO
 }
 
 func (ms *MidState) siafundElement(ts V1TransactionSupplement, id types.SiafundOutputID) (types.SiafundElement, bool) {
-	if i, ok := ms.elements[id]; ok {
+	if i, ok := ms.elements[id]; ok && i < len(ms.sfes) && ms.sfes[i].SiafundElement.ID == id {
 		return ms.sfes[i].SiafundElement, true
 	}
 	for _, sfe := range ts.SiafundInputs {
@@ -821,7 +823,7 @@ func (ms *MidState) siafundElement(ts V1TransactionSupplement, id types.SiafundO
 }
 
 func (ms *MidState) fileContractElement(ts V1TransactionSupplement, id types.FileContractID) (types.FileContractElement, bool) {
-	if i, ok := ms.elements[id]; ok {
+	if i, ok := ms.elements[id]; ok && i < len(ms.fces) && ms.fces[i].FileContractElement.ID == id {
 		rev, ok := ms.fces[i].RevisionElement()
 		if ok {
 			return rev, ok
@@ -842,7 +844,7 @@ func (ms *MidState) fileContractElement(ts V1TransactionSupplement, id types.Fil
 }
 
 func (ms *MidState) storageProofWindowID(ts V1TransactionSupplement, id types.FileContractID) (types.BlockID, bool) {
-	if i, ok := ms.elements[id]; ok {
+	if i, ok := ms.elements[id]; ok && i < len(ms.fces) && ms.fces[i].FileContractElement.ID == id {
 		// the contract was created or revised within this block; its window
 		// is that of its latest revision
 		fc := ms.fces[i].FileContractElement.FileContract
